@@ -356,4 +356,36 @@ def run_system(case, rec, rng):
                 rec.violation("system/%s/total-gradient/%s" % (kind, "network" if g == "nn" else "eq-param"),
                               "system: d total / d %s = %s, expected %s for per-unknown masks" % (key, tot[key][:3], np.asarray(exp)[:3]))
         rec.nontrivial(("system", kind, it))
+    # ---- the same through the public constructor: derivative_keys_dict given by the user, different per unknown
+    for it in range(4 if case["n"] < 50 else 12):
+        bits = {(n, t, g): int(rng.integers(2)) for n in names for t in TERMS["nonstatio"] for g in GROUPS}
+        if it == 0:
+            for t in TERMS["nonstatio"]:
+                for g in GROUPS:
+                    bits[(names[0], t, g)], bits[(names[1], t, g)] = 1, 0
+        if it == 1:
+            for t in TERMS["nonstatio"]:
+                for g in GROUPS:
+                    bits[(names[0], t, g)], bits[(names[1], t, g)] = 0, 1
+        sp.derivative_keys_dict = {n: dk_for(bits, n, as_array=False) for n in names}
+        l3 = guard.call(sp.loss)
+        vals, jac = guard.call(jax.jit(observe), l3, pd, batch)
+        rec.count("system_constructor_assignments")
+        rec.count("assignments_checked")
+        tot = blocks(jac, 0)
+        for key in list(tot.keys()):
+            g = "nn" if isinstance(key, tuple) else key
+            exp = base[tnames[0]][key] * 0.0
+            for t in tnames:
+                exp = exp + base[t][key]
+                for n in names:
+                    if isinstance(key, tuple) and key[1] != n:
+                        continue
+                    if t in cterms and bits[(n, t, g)]:
+                        exp = exp + ref[n][t][key]
+            if not close(tot[key], exp, 1e-9, 1e-11):
+                rec.violation("system/%s/constructor-keys/total-gradient/%s" % (kind, "network" if g == "nn" else "eq-param"),
+                              "system built with a per-unknown derivative_keys_dict: d total / d %s = %s, expected %s"
+                              % (key, tot[key][:3], np.asarray(exp)[:3]))
+    sp.derivative_keys_dict = None
     rec.set_sample(kind=kind, mode="system", terms=tnames, constraint_terms=cterms, n_assignments=case["n"])
